@@ -13,7 +13,7 @@ type rndCh struct{ r *rand.Rand }
 
 func (c rndCh) Choose(l string, n int) int { return c.r.Intn(n) }
 
-type S struct {
+type spikeS struct {
 	m sync.RWMutex
 }
 
@@ -32,7 +32,7 @@ func TestSpike(t *testing.T) {
 				s := Install(rndCh{rand.New(rand.NewSource(int64(seed)))})
 				s.LockYield = true
 				defer s.Uninstall()
-				var x S
+				var x spikeS
 				s.Spawn("req", func() {
 					RLock("a", &x.m)
 					defer RUnlock("a", &x.m)
@@ -71,5 +71,20 @@ func TestSpike(t *testing.T) {
 	t.Logf("deadlocks %d of %d in %v", dead, N, time.Since(start))
 	if dead == 0 {
 		t.Fatal("expected some deadlocks")
+	}
+}
+
+func TestSelectPeek(t *testing.T) {
+	if !selfTestChanPeek() {
+		t.Fatal("channel header layout differs from the one selectpick.go assumes")
+	}
+	if !SelfTestBlockedPeers(func() { time.Sleep(50 * time.Millisecond) }) {
+		t.Fatal("recvq / sendq are not where selectpick.go expects them")
+	}
+	// a timer-fed channel is reported as unknown
+	tm := time.NewTimer(time.Hour)
+	defer tm.Stop()
+	if R(tm.C).state() != selUnknown {
+		t.Fatal("timer channel not recognised")
 	}
 }
